@@ -5,6 +5,8 @@ import Hive.Model.TypedRef
 import Hive.Model.TypedCode
 import Hive.Model.TypedDirty
 import Hive.Gen.C06_Code
+import Hive.Model.TypedStoreCode
+import Hive.Gen.C06_StoreCode
 /-!
 # Line-protocol driver state for C06: one `TypedValue[uint64]` (`tv …`), one `TypedValue[*T]` (`tp …`),
 one `TypedStore` (`ts …`) and the
@@ -21,6 +23,7 @@ structure DState where
   varKeys : Bool := false    -- `ts keys var`: the TypedStore's key codec is the variable-length `codecVar`
   tvZero : Bool := false     -- `tv values zempty`: the TypedValue's codec is `codec64z` (0 encodes as the empty byte string)
   tsZero : Bool := false     -- `ts values zempty`: the same for the TypedStore's values
+  tsWrapped : Bool := false  -- `ts store wrapped|fmt`: the harness's store reports its errors wrapped (matters for the translated code only)
   tvDirty : Bool := false    -- `tv faults dirty`: a failing store write of the harness's store takes effect all the same (`stepD`)
 
 def dinit : DState := { tv := fresh none, ts := [], tp := rinit }
@@ -48,10 +51,38 @@ def stepLineBoth (w : Bool) (C : Codec UInt64) (s : St UInt64) (toks : List Stri
       (r.st, if a == b then a else a ++ " [translated-code: " ++ b ++ "]")
     | none => (s, "bad-op")
 
+/-- `ts` lines of the point methods (and of `DeletePrefix` / `Clear`) are answered by the hand-written model **and** by the
+regenerated method bodies (`Hive/Gen/C06_StoreCode.lean`) run under `SCode.sexec`; by `C06_store_code_refines_model` the two
+agree, and the real code is compared with both. -/
+def sstepLineBoth (w : Bool) (KC : Codec UInt16) (VC : Codec UInt64) (m : Store) (toks : List String) : Store × String :=
+  let (m', a) := sstepLineK KC VC m toks
+  let differ := fun (b : String) => (m', if a == b then a else a ++ " [translated-code: " ++ b ++ "]")
+  match parseSOp toks with
+  | some (op, F) =>
+    match SCode.sexecOp w Hive.Gen.C06StoreCode.sprog KC VC m op F with
+    | some g => differ (showSRes g)
+    | none => (m', a)
+  | none =>
+    let pass := fun (body : SCode.SStmt) (p : Bytes) (F : SFaults) (letter : String) =>
+      match SCode.sexecPass w KC VC body m p F with
+      | (st, none) => differ s!"ok calls={letter} store={showStore st}"
+      | (st, some e) => differ s!"{showSErr e} calls={letter}! store={showStore st}"
+    match toks with
+    | ["delp", p, f] =>
+      match unhex p, parseSFaults f with
+      | some p, some F => pass Hive.Gen.C06StoreCode.sprog.deletePrefix p F "P"
+      | _, _ => (m', a)
+    | ["clear", f] =>
+      match parseSFaults f with
+      | some F => pass Hive.Gen.C06StoreCode.sprog.clear [] F "Z"
+      | none => (m', a)
+    | _ => (m', a)
+
 def dstepLine (s : DState) (toks : List String) : DState × String :=
   match toks with
   | [_, "codec", _] => (s, "ok")   -- codec flavour of the harness (allocating / scratch buffers): no semantic content
   | ["tv", "store", fl] => ({ s with wrapped := fl != "plain" }, "ok")
+  | ["ts", "store", fl] => ({ s with tsWrapped := fl != "plain" }, "ok")
   | [_, "store", _] => (s, "ok")
   | ["ts", "keys", fl] => ({ s with varKeys := fl == "var" }, "ok")
   | ["tv", "values", fl] => ({ s with tvZero := fl == "zempty" }, "ok")
@@ -73,7 +104,7 @@ def dstepLine (s : DState) (toks : List String) : DState × String :=
       ({ s with tv := tv' }, o)
   | "tp" :: rest => let (tp', o) := rstepLine s.tp rest; ({ s with tp := tp' }, o)
   | "ts" :: rest =>
-    let (ts', o) := sstepLineK (if s.varKeys then codecVar else codec16) (if s.tsZero then codec64z else codec64) s.ts rest
+    let (ts', o) := sstepLineBoth s.tsWrapped (if s.varKeys then codecVar else codec16) (if s.tsZero then codec64z else codec64) s.ts rest
     ({ s with ts := ts' }, o)
   | ["conc", "counter", final, incs, gets] =>
     match final.toNat?, parseCsv incs, parseCsv gets with
